@@ -347,7 +347,8 @@ def _bare_case(draw):
         unit_guess = ref.UNITS_BY_DIM[SLOT_DIM[slot]][0]
     else:
         unit_guess = unit
-    return {"param": name, "config": cfg, "x": _value(draw, kind, unit_guess)}
+    # the same bare number is then passed again under a second set of preferences (it means something else there)
+    return {"param": name, "config": cfg, "x": _value(draw, kind, unit_guess), "config2": draw(_config())}
 
 
 def _call(fn, x):
@@ -376,6 +377,18 @@ def check_bare(case):
                 site = b
         key = f"C07:bare-zero:{site}" if zero else f"C07:bare-number:{name}"
         r.bad(key, f"{name}={x!r} under {slot}={unit.name}: bare number gives {str(bare)[:160]}, explicit {unit.name}({x!r}) gives {str(explicit)[:160]}")
+    if case.get("config2") is not None and not r.violations:
+        _apply(case["config2"])
+        unit2 = getattr(pb.PreferredUnits, slot)
+        bare2 = _call(fn, x)
+        pb.reset_globals()
+        explicit2 = _call(fn, unit2(x))
+        pb.reset_globals()
+        if unit2 is not unit:
+            r.label("same-number-under-two-preferences")
+        if bare2 != explicit2:
+            r.bad(f"C07:bare-number:{name}:second-preference", f"{name}={x!r} first passed under {slot}={unit.name}, then under {slot}={unit2.name}: "
+                  f"the bare number now gives {str(bare2)[:160]}, explicit {unit2.name}({x!r}) gives {str(explicit2)[:160]}")
     base_unit = {"angular": "Radian", "distance": "Inch", "velocity": "MPS", "pressure": "MmHg", "temperature": "Fahrenheit",
                  "weight": "Grain", "energy": "FootPound"}[SLOT_DIM[slot]]
     r.nontrivial = x == 0 or x < 0 or unit.name != base_unit
